@@ -212,6 +212,9 @@ def run_monitor(prog, rec, A=None):
         for what, where in I.unmodelled:
             rec.broke('unmodelled construct in monitor analysis: %s at %s' % (what, where))
     rec.count('M1 guarded writes', nwrites, 3)
+    # M4 summary (the per-site obligations exist only where notify_one is used)
+    rec.ob('M4', 'M4@%s::single-waiter-for-notify_one' % A.Mq, not any(o.rule == 'M4' and o.ok is False for o in rec.obls), A.M['file'],
+           'every notify_one addresses a condition variable with at most one wait site (%d notify_one site(s))' % sum(1 for o in rec.obls if o.rule == 'M4'))
     # --- M5: every wait can be left by a value somebody writes
     for cv, ls in leave.items():
         rec.ob('M5', 'M5@%s::leave-set-%s-reachable' % (A.Mq, cv.split('::')[-1]), bool(ls & written), A.M['file'],
